@@ -281,7 +281,11 @@ func genC12(c *Ctx) {
 			case 0:
 				sk = skFromInt(k)
 			case 1:
-				sk, _ = crypto.DecodePrivateKey(crypto.BLSBLS12381, be(k, 32))
+				var derr error
+				sk, derr = crypto.DecodePrivateKey(crypto.BLSBLS12381, be(k, 32))
+				if derr != nil {
+					return "err decode " + errClass(derr)
+				}
 			default:
 				a := c.randScalar()
 				b := new(big.Int).Mod(new(big.Int).Sub(new(big.Int).Add(k, blsR), a), blsR)
@@ -290,6 +294,9 @@ func genC12(c *Ctx) {
 				} else {
 					sk, _ = crypto.AggregateBLSPrivateKeys([]crypto.PrivateKey{skFromInt(a), skFromInt(b)})
 				}
+			}
+			if sk == nil {
+				return "err no-key"
 			}
 			const G = 8
 			encs := make([]string, G)
